@@ -268,6 +268,8 @@ pub struct HistGen<'a> {
     pub long_names: bool,
     /// at most one bulk creation per history
     pub bulk_left: usize,
+    /// smallest size of a bulk (200; 2000 for listings well beyond one pipe buffer)
+    pub bulk_base: usize,
     /// at most this many files larger than 2 MiB per history
     pub big_left: usize,
     /// emptying files repeats a content (""), which C07's "content it never had" clause must avoid
@@ -279,7 +281,7 @@ pub struct HistGen<'a> {
 
 impl<'a> HistGen<'a> {
     pub fn new(rng: &'a mut Rng, model: RGit, dirs: Vec<String>, protected: BTreeSet<String>) -> Self {
-        HistGen { rng, model, dirs, protected, long_names: false, bulk_left: 0, big_left: 0, allow_empty: false, links_left: 0, n_created: 0 }
+        HistGen { rng, model, dirs, protected, long_names: false, bulk_left: 0, bulk_base: 200, big_left: 0, allow_empty: false, links_left: 0, n_created: 0 }
     }
     fn new_path(&mut self, ignored: bool) -> String {
         let d = self.dirs[self.rng.below(self.dirs.len())].clone();
@@ -327,7 +329,7 @@ impl<'a> HistGen<'a> {
             if self.bulk_left > 0 && self.rng.chance(1, 4) {
                 self.bulk_left -= 1;
                 self.n_created += 1;
-                let op = GitOp::Bulk { dir: self.dirs[self.rng.below(self.dirs.len())].clone(), n: 200 + self.rng.below(250), tag: self.n_created };
+                let op = GitOp::Bulk { dir: self.dirs[self.rng.below(self.dirs.len())].clone(), n: self.bulk_base + self.rng.below(250 + self.bulk_base / 4), tag: self.n_created };
                 self.model.apply(&op);
                 return op;
             }
